@@ -224,3 +224,81 @@ Print Assumptions C12_woken_then_returns_reachable.
 Print Assumptions C12_done_stable.
 Print Assumptions C12_holds.
 Print Assumptions C12_oracle_rejects_lost_wakeup.
+
+(** ** tie to the source text (see Props/C11.v): the [notified] flag of the
+    re-translated body of every signalling method is the model's [notifies], and
+    one iteration of the re-translated loop of each waiting method returns
+    exactly when [ready] holds or the deadline has passed, with the value of
+    [waiter_return], and otherwise parks with the state unchanged. *)
+From RepeV Require Import Base.GenPrelude Gen.StreamGen Proofs.StreamGenAgree.
+
+Theorem C12_source_translation :
+  (match gen_record_sent with Some f => forall s n, snd (f s n) = notifies s (Sent n) | None => True end /\
+   match gen_record_ack with Some f => forall s fi n, snd (f s fi n) = notifies s (Ack fi n) | None => True end /\
+   match gen_cancel with Some f => forall s r, snd (f s r) = notifies s (Cancel r) | None => True end /\
+   match gen_advance_to_file with Some f => forall s fi, snd (f s fi) = notifies s (Advance fi) | None => True end /\
+   match gen_request_resume with Some f => forall s p fi n, snd (f s p fi n) = notifies s (Resume p fi n) | None => True end /\
+   match gen_push_replay with Some f => forall s off len lst body, snd (f s off len lst body) = notifies s (Push off len lst body) | None => True end /\
+   match gen_set_peer with Some f => forall s p, snd (f s p) = notifies s (SetPeer p) | None => True end /\
+   match gen_replay_chunks_from with Some f => forall s n, snd (f s n) = notifies s (Replay n) | None => True end) /\
+  match gen_wait_for_credit with
+  | Some f => forall s len expired,
+      let '(s', i, nt) := f s len expired in
+      s' = s /\ nt = false /\ returned i = ready (WCredit len) s || expired /\
+      (ready (WCredit len) s = true -> iter_map wres_of_credit i = Some (snd (waiter_return (WCredit len) s))) /\
+      (ready (WCredit len) s = false -> i = if expired then Ret (RErr CE_Timeout) else Park)
+  | None => True
+  end /\
+  match gen_wait_for_reconnect with
+  | Some f => forall s expired,
+      let '(s', i, nt) := f s expired in
+      nt = false /\ returned i = ready WReconnect s || expired /\
+      (ready WReconnect s = true ->
+       exists v, i = Ret v /\ (s', wres_of_reconnect v) = waiter_return WReconnect s) /\
+      (ready WReconnect s = false -> s' = s /\ i = if expired then Ret RO_Timeout else Park)
+  | None => True
+  end /\
+  match gen_wait_for_reconnect with
+  | Some f => forall s,
+      let '(s', i, nt) := f s true in
+      (s', iter_map out_of_reconnect i, nt) = (fst (step s TryReconnect), Some (snd (step s TryReconnect)), false)
+  | None => True
+  end.
+Proof.
+  exact (conj notified_agrees (conj wait_for_credit_iteration (conj wait_for_reconnect_iteration wait_for_reconnect_expired))).
+Qed.
+
+Check C12_source_translation :
+  (match gen_record_sent with Some f => forall s n, snd (f s n) = notifies s (Sent n) | None => True end /\
+   match gen_record_ack with Some f => forall s fi n, snd (f s fi n) = notifies s (Ack fi n) | None => True end /\
+   match gen_cancel with Some f => forall s r, snd (f s r) = notifies s (Cancel r) | None => True end /\
+   match gen_advance_to_file with Some f => forall s fi, snd (f s fi) = notifies s (Advance fi) | None => True end /\
+   match gen_request_resume with Some f => forall s p fi n, snd (f s p fi n) = notifies s (Resume p fi n) | None => True end /\
+   match gen_push_replay with Some f => forall s off len lst body, snd (f s off len lst body) = notifies s (Push off len lst body) | None => True end /\
+   match gen_set_peer with Some f => forall s p, snd (f s p) = notifies s (SetPeer p) | None => True end /\
+   match gen_replay_chunks_from with Some f => forall s n, snd (f s n) = notifies s (Replay n) | None => True end) /\
+  match gen_wait_for_credit with
+  | Some f => forall s len expired,
+      let '(s', i, nt) := f s len expired in
+      s' = s /\ nt = false /\ returned i = ready (WCredit len) s || expired /\
+      (ready (WCredit len) s = true -> iter_map wres_of_credit i = Some (snd (waiter_return (WCredit len) s))) /\
+      (ready (WCredit len) s = false -> i = if expired then Ret (RErr CE_Timeout) else Park)
+  | None => True
+  end /\
+  match gen_wait_for_reconnect with
+  | Some f => forall s expired,
+      let '(s', i, nt) := f s expired in
+      nt = false /\ returned i = ready WReconnect s || expired /\
+      (ready WReconnect s = true ->
+       exists v, i = Ret v /\ (s', wres_of_reconnect v) = waiter_return WReconnect s) /\
+      (ready WReconnect s = false -> s' = s /\ i = if expired then Ret RO_Timeout else Park)
+  | None => True
+  end /\
+  match gen_wait_for_reconnect with
+  | Some f => forall s,
+      let '(s', i, nt) := f s true in
+      (s', iter_map out_of_reconnect i, nt) = (fst (step s TryReconnect), Some (snd (step s TryReconnect)), false)
+  | None => True
+  end.
+
+Print Assumptions C12_source_translation.
